@@ -284,6 +284,14 @@ Fixpoint wrap_chars (w : window) (cols : Z) (chars : list character) (st : Z)
 
 Definition zsum (l : list Z) : Z := fold_left Z.add l 0.
 
+(* what one cluster of a line segment contributes to the segment width Wrap compares with the
+   window width: the widths of the characters it EXPANDS to, under the measuring in force (a
+   tab: eight blanks, whatever width the segmenter attached to the tab cluster; its string
+   width would be 0) *)
+Definition cluster_total (cl : list Z * Z) : Z :=
+  if zlist_eqb (fst cl) [9] then 8 * char_width (mkChar [32] 1)
+  else char_width (mkChar (fst cl) (snd cl)).
+
 Fixpoint wrap_loop (w : window) (cols rows : Z) (lsegs : list lineseg)
          (s : screen) (col row : Z) : option (screen * (Z * Z)) :=
   match lsegs with
